@@ -179,6 +179,14 @@ def make_cloud(spec):
         pts[:, 0] = (g.normal(size=n) * w) % 1.0
     else:
         pts = g.random((n, d))
+    if spec.get('scale', 1.0) != 1.0:
+        # the same cloud in tiny units (only for bounds not restricted to
+        # the unit cube): nothing may depend on the absolute scale
+        ok = np.all((pts >= 0) & (pts < 1), axis=1)
+        pts = pts[ok]
+        while len(pts) < 4 * d + 8:
+            pts = np.vstack([pts, g.uniform(0.4, 0.6, (4 * d + 8, d))])
+        return np.ascontiguousarray(pts * spec['scale'])
     # keep what lies inside the unit cube; top up if too few remain
     ok = np.all((pts >= 0) & (pts < 1), axis=1)
     pts = pts[ok]
@@ -197,7 +205,8 @@ def cloud_log_l(points):
 # building bounds
 # ---------------------------------------------------------------------------
 
-def draw_bound_spec(rng, classes=None, d_max=8, clouds=None, networks=None):
+def draw_bound_spec(rng, classes=None, d_max=8, clouds=None, networks=None,
+                    scale_ok=False):
     cls = rng.choice(classes or CLASSES)
     d = rng.choice([x for x in [2, 2, 3, 3, 4, 5, 6, 8] if x <= d_max])
     if cls in ('UnitCube', 'Ellipsoid', 'Mixture', 'Union') and \
@@ -227,7 +236,10 @@ def draw_bound_spec(rng, classes=None, d_max=8, clouds=None, networks=None):
         nn_kwargs=rng.choice([
             dict(hidden_layer_sizes=[8], max_iter=40),
             dict(hidden_layer_sizes=[6, 4], max_iter=30, activation='tanh'),
-            dict(hidden_layer_sizes=[10], max_iter=50, alpha=0.001)]),
+            dict(hidden_layer_sizes=[10], max_iter=50, alpha=0.001),
+            # over-regularised: the emulator predicts practically the same
+            # score everywhere
+            dict(hidden_layer_sizes=[8], max_iter=40, alpha=1000.0)]),
         split_threshold=rng.choice([100, 1, 1]),
         f_above=rng.choice([0.3, 0.5, 0.8]),
         log_v_target=rng.choice([0.0, -2.0, -6.0, -15.0, -40.0]),
@@ -240,6 +252,9 @@ def draw_bound_spec(rng, classes=None, d_max=8, clouds=None, networks=None):
             spec['periodic'] = sorted(spec['periodic'] + [0])
     if cls == 'PhaseShift' and spec['periodic'] is None:
         spec['periodic'] = [0]
+    if cls == 'Union' and not spec['unit'] and scale_ok and \
+            rng.random() < 0.3:
+        spec['cloud']['scale'] = rng.choice([1e-40, 1e-120, 1e30])
     return spec
 
 
@@ -923,6 +938,33 @@ def execute(case, props=('C07', 'C08', 'C09', 'C13'), scratch=None):
                              '({} points requested)'.format(cname, n), step)
                 continue
 
+            if kind == 'big':
+                if 'C07' not in props:
+                    continue
+                nbig = int(op[1])
+                if cname == 'NautilusBound':
+                    pts = obj.sample(nbig)
+                else:
+                    pts = g.random((nbig, s.d))
+                whole = np.asarray(obj.contains(pts))
+                parts = np.concatenate([
+                    np.asarray(obj.contains(pts[i:i + 5000]))
+                    for i in range(0, nbig, 5000)])
+                stats['samples'] += nbig
+                if whole.tobytes() != parts.tobytes():
+                    j = int(np.flatnonzero(whole != parts)[0])
+                    _bad('C07', 'contains_not_pointwise', '{}.contains() of '
+                         '{} points at once disagrees with the same points '
+                         'in pieces of 5000 (first at row {})'.format(
+                             cname, nbig, j), step)
+                if cname == 'NautilusBound':
+                    check_c07_samples(s, obj, pts, step, 'sample(big)')
+                    handed.append(pts if obj.shift is None else
+                                  obj.shift.transform(pts))
+                    if 'C08' in props:
+                        cons['obj'] = conservation_state(obj)
+                        cons['outer'] = conservation_state(obj.outer_bound)
+                continue
             if kind == 'write0':
                 if cname == 'UnitCube' or not has_update(obj):
                     continue
@@ -1117,6 +1159,11 @@ def draw_ops(rng, spec, profile):
                 ['sample', 1000 * rng.choice([1, 2, 3])],
                 ['update_restart'], ['sample', rng.choice([100, 1500])]]
         return ops
+    if cls in ('NeuralBound', 'NautilusBound') and profile.get(
+            'p_big', 0) and rng.random() < profile['p_big']:
+        # one very large batch through contains(): it must stay a
+        # point-wise predicate whatever the batch size
+        ops.append(['big', 150000])
     for _ in range(n):
         a = rng.choice(alphabet)
         if a == 'split_t':
